@@ -124,9 +124,43 @@ def search():
     return n, None
 
 
+def throttled_twice():
+    """Each `throttle(...)` application has a window, limit and period of its own: the same coroutine function throttled twice
+    (looser first / stricter first) gives two throttles that each keep their own bound."""
+    for first_cfg, second_cfg, want in (((4, 1.0), (1, timedelta(seconds=2)), [0.0, 2.0, 4.0]),
+                                        ((1, 5), (3, 1.0), [0.0, 0.0, 0.0])):
+        starts = []
+
+        async def main(loop, first_cfg=first_cfg, second_cfg=second_cfg, starts=starts):
+            async def fetch(i):
+                starts.append(loop.time())
+                return i
+            first = throttle(limit=first_cfg[0], period=first_cfg[1])(fetch)
+            await first(0)
+            del starts[:]
+            await asyncio.sleep(20)                   # the first throttle's window is long over
+            t0 = loop.time()
+            second = throttle(limit=second_cfg[0], period=second_cfg[1])(fetch)
+            res = await asyncio.gather(*[second(i) for i in range(3)])
+            return t0, res
+        try:
+            t0, res = run(main, T)
+        except Hang as h:
+            return f"the same function throttled twice: {h}"
+        got = [round(s - t0, 6) for s in starts]
+        if got != want or res != [0, 1, 2]:
+            return (f"the same function throttled with (limit, period) = {first_cfg} and later with {second_cfg}: three calls through the "
+                    f"second throttle began at {got} (results {res}), expected {want}")
+    return None
+
+
 def main():
     sys.stdin.read()
     n, fail = search()
+    if not fail:
+        n += 2
+        p = throttled_twice()
+        fail = dict(problem=p) if p else None
     if not fail:
         from mimic_frame import own_state_problems
         n += 1
